@@ -40,6 +40,9 @@ def c13_stats(cases, model):
     shared_hosts = 0          # configurations / key maps with >= 2 entries on one host
     order_sensitive = 0       # lookups matched by >= 2 entries of the final configuration (order decides)
     dot_probes = 0
+    cs_changes = collections.Counter()   # reloads by what they do to the common secret
+    cs_reliant = 0            # configurations with a listed section without own secret (relies on the common secret)
+    cs_answers = 0            # lookups answered with a common secret
     for c in cases:
         lens.append(len(c["ops"]))
         if c["ops"]:
@@ -47,10 +50,19 @@ def c13_stats(cases, model):
         n_mut = 0
         cur = []              # static: entries of the last configuration; etcd: dict key -> (host, url)
         kv = {}
+        common = None
         for o, i in zip(c["ops"], c.get("impl") or []):
             f = o.split(" ")
             k = f[0]
             ops[k] += 1
+            if k in ("load", "reload") and len(f) > 2 and f[1].startswith("cs="):
+                cs = _dec(f[1][3:])
+                if k == "reload" and common is not None:
+                    cs_changes["unchanged" if cs == common else "added" if common == "" else "removed" if cs == "" else "changed"] += 1
+                common = cs
+                t = f[1:]
+                if any(t[j] == "sec" and t[j + 3] == "1" and _dec(t[j + 7]) == "" for j in range(2, len(t) - 10, 11)):
+                    cs_reliant += 1
             if k in ("load", "reload"):
                 cur = _entries_of_cfg(f[1:])
                 hosts = collections.Counter(h for h, _ in cur)
@@ -74,6 +86,8 @@ def c13_stats(cases, model):
                 a = i.split(" ")[0][6:]
                 if k == "probe" and len(f) == 6:
                     accepted["accepted" if a != "-" else "rejected"] += 1
+                    if a != "-" and common and len(a.split(";")) == 6 and _dec(a.split(";")[1]) == common:
+                        cs_answers += 1
                     host, url = _dec(f[2]), _dec(f[3])
                     if f[4] == "1":
                         dot_probes += 1
@@ -88,6 +102,9 @@ def c13_stats(cases, model):
     return dict(verdicts=_verdict_stats(cases, model), ops=dict(ops), impl_outcomes=dict(outcomes), modes=dict(modes),
                 lookups=dict(accepted), lookups_where_entry_order_decides=order_sensitive, lookups_with_dot_segments=dot_probes,
                 mutations_leaving_a_shared_host=shared_hosts,
+                reloads_by_effect_on_the_common_secret=dict(cs_changes),
+                configurations_with_a_section_relying_on_the_common_secret=cs_reliant,
+                lookups_answered_with_the_common_secret=cs_answers,
                 max_case_len=max(lens or [0]), mean_case_len=round(sum(lens) / max(1, len(lens)), 1),
                 mean_mutations_per_case=round(sum(muts_per_case) / max(1, len(muts_per_case)), 1),
                 max_mutations_per_case=max(muts_per_case or [0]))
@@ -105,7 +122,8 @@ def c13_nontrivial(c, ms):
 CONFIG = dict(
     modules=["SigModel.Props.C13"],
     theorems=["SigModel.Backends." + t for t in [
-        "C13_reload_eq_fresh", "C13_reload_raw_eq_fresh", "C13_reload_total", "C13_reload_chain_total", "C13_reload_path_audit", "C13_static_answers_from_final",
+        "C13_reload_eq_fresh", "C13_reload_raw_eq_fresh", "C13_config_source_facts", "C13_static_file_eq_fresh",
+        "C13_static_file_reload_total", "C13_cached_common_secret_differs", "C13_static_file_meets_spec", "C13_reload_total", "C13_reload_chain_total", "C13_reload_path_audit", "C13_static_answers_from_final",
         "C13_static_configured_accepted", "C13_legacy_upsert_panics", "C13_legacy_order_differs",
         "C13_etcd_eq_fresh", "C13_etcd_eq_fresh_sorted", "C13_etcd_answers_from_final",
         "C13_etcd_deleted_not_accepted", "C13_etcd_moved_not_accepted",
@@ -118,9 +136,13 @@ CONFIG = dict(
     harness=dict(pkg="signaling", test="TestVerifC13"),
     stats=c13_stats,
     nontrivial=c13_nontrivial,
-    rule="corpus of 12 witness cases first; static: PRNG chains of 2-9 configurations (1-4 hosts, 0-6 backends, ids "
+    rule="corpus of 15 witness cases first; static: PRNG chains of 2-9 configurations (1-4 hosts, 0-6 backends, ids "
          "added/removed/moved/re-ordered/changed, nested prefixes, http/https, default and other ports, duplicate / "
-         "missing / broken / emptied entries, common secret); etcd: 2-30 put/delete events over 2-7 keys incl. host "
+         "missing / broken / emptied entries, common secret); common-secret chains: a scripted opening over the common "
+         "[backend] secret (present, changed, removed, added again; or removed while every backend has an own secret and "
+         "a backend without one added later) + random continuation of 0-6 steps, 1-6 backends of which about half have "
+         "no own secret, many steps changing only the common secret or one backend's own secret, every url configured "
+         "so far looked up after every step; etcd: 2-30 put/delete events over 2-7 keys incl. host "
          "moves and undecodable/invalid values; concurrent variants (2-5 lookup goroutines during 20 passes of the "
          "mutations, watchdog 8 s); probe set = every url seen, its prefixes and extensions, scheme / port / "
          "dot-segment variants, probed after every mutation (subset) and at the end (all); a case is non-trivial if "
@@ -163,7 +185,12 @@ MANIFEST = dict(
          "host) the table is the canonical table of the final key/value map, hence equals a fresh start for every "
          "order in which a starting server receives the pairs; answers come only from the final configuration "
          "(removed / moved urls are rejected); Reload is total; the model's answers satisfy the judge written from "
-         "the statement. Concurrency: Go's writer-preferring RWMutex as a transition system; the lock programs of "
+         "the statement. The static storage is modelled with the common secret it keeps from startup; where "
+         "NewBackendStorageStatic and Reload take the three arguments of getConfiguredHosts from (id list, sections, common "
+         "[backend] secret) and which members of the receiver Reload touches are regenerated facts: all come from the "
+         "file being loaded, so for every chain of files (common secret present, changed, removed, added again; sections "
+         "with and without own secret) url set and secret per url equal a fresh start from the last file, with a proved "
+         "witness that a Reload falling back to the cached common secret does not. Concurrency: Go's writer-preferring RWMutex as a transition system; the lock programs of "
          "all storage entry points are regenerated from the source (go/ast walk over every path, following calls) and "
          "must be well-bracketed and non-nested by `decide`; then for any number of threads running any sequence of "
          "those calls: no deadlock, every run terminates in the final configuration, writer excludes everyone; the "
